@@ -3,8 +3,10 @@ From V Require Export lib.Verdict C11.Model.
 Open Scope string_scope.
 
 Inductive case :=
-(* DiscoveryServer.authorize on a fresh proxy *)
-| Ident (id : N) (enable : bool) (cns csa : string) (ids : option (list string)) (observed : auth_result)
+(* initProxyMetadata (ParseServiceNodeWithMetadata + GetProxyConfigNamespace) then
+   DiscoveryServer.authorize on the fresh proxy: mns = Metadata.Namespace, dns = DNS domain of the node id,
+   csa = Metadata.ServiceAccount *)
+| Ident (id : N) (enable : bool) (mns dns csa : string) (ids : option (list string)) (observed : auth_result)
 (* credentials.ParseResourceName *)
 | Parse (id : N) (rn pns pcl ccl : string) (observed : option sres)
 (* parseResources + filterAuthorizedResources with the controller of the proxy's cluster:
@@ -12,12 +14,17 @@ Inductive case :=
 | Filter (id : N) (w : world) (p : proxy) (names : list string)
          (parsed : list (sres * string)) (passed : list sres)
 (* a history on one SecretGen with the real XdsCache.  observed: one response per OGen;
-   fresh: the response of a brand-new SecretGen (empty cache) to the same single request *)
-| Scen (id : N) (w : world) (ops : list op) (observed fresh : list (list entry)).
+   fresh: the response of a brand-new SecretGen (empty cache) to the same single request;
+   keys: the key set of the real cache after every op *)
+| Scen (id : N) (w : world) (ops : list op) (observed fresh : list (list entry)) (keys : list (list string))
+(* the real kube CredentialsController.Authorize against a fake SubjectAccessReview backend whose
+   grant table the harness changes between calls; one observed outcome per KCall *)
+| KAuth (id : N) (grants : list (string * string)) (ops : list kop) (observed : list bool).
 
 Definition case_id c :=
   match c with
-  | Ident id _ _ _ _ _ => id | Parse id _ _ _ _ _ => id | Filter id _ _ _ _ _ => id | Scen id _ _ _ _ => id
+  | Ident id _ _ _ _ _ _ => id | Parse id _ _ _ _ _ => id | Filter id _ _ _ _ _ => id | Scen id _ _ _ _ _ => id
+  | KAuth id _ _ _ => id
   end.
 
 (* ---- equality tests *)
@@ -62,16 +69,18 @@ Definition proxy_auth (w : world) (p : proxy) : bool :=
 (* ---- correspondence: the model predicts the observation *)
 Definition model_ok (c : case) : bool :=
   match c with
-  | Ident _ en cns csa ids o => auth_eqb (authorize en cns csa ids) o
+  | Ident _ en mns dns csa ids o => auth_eqb (authorize en (config_namespace mns dns) csa ids) o
   | Parse _ rn pns pcl ccl o => option_eqb sres_eqb (parse_resource_name rn pns pcl ccl) o
   | Filter _ w p names parsed passed =>
       let rs := parse_resources names (proxy_ns p) (p_cluster p) (config_cluster w) in
       all2 (fun sr o => sres_eqb sr (fst o) && String.eqb (cache_key sr (p_pkp p)) (snd o)) rs parsed
       && all2 sres_eqb (filter_authorized p (proxy_ns p) (proxy_auth w p) rs) passed
-  | Scen _ w ops obs fresh =>
+  | Scen _ w ops obs fresh keys =>
       all2 (same_set entry_eqb) (run w [] ops) obs
+      && all2 (same_set String.eqb) (run_keys w [] ops) keys
       && all2 (fun g f => match g with (p, n, r) => same_set entry_eqb (fst (generate w [] p n r)) f end)
               (gens ops) fresh
+  | KAuth _ grants ops obs => all2 Bool.eqb (kube_run grants [] ops) obs
   end.
 
 (* ---- property oracles on the observed behaviour (written from the property, not from the code) *)
@@ -102,6 +111,15 @@ Definition parse_spec (rn pns pcl ccl : string) (sr : sres) : bool :=
   | TInvalid => has_prefix "invalid://" rn
   end.
 
+(* the namespace a node claims: its metadata namespace, else the leading label of a dotted DNS domain *)
+Definition claimed_ns (mns dns : string) : string :=
+  if String.eqb mns "" then
+    match split_on dot dns with
+    | [] | [_] => ""
+    | a :: _ => a
+    end
+  else mns.
+
 Definition ident_spec (en : bool) (cns csa : string) (ids : option (list string)) (o : auth_result) : bool :=
   match o with
   | AuthDenied => true
@@ -129,15 +147,19 @@ Definition passed_spec (w : world) (p : proxy) (sr : sres) : bool :=
 
 Definition prop_ok (c : case) : bool :=
   match c with
-  | Ident _ en cns csa ids o => ident_spec en cns csa ids o
+  | Ident _ en mns dns csa ids o => ident_spec en (claimed_ns mns dns) csa ids o
   | Parse _ rn pns pcl ccl o => match o with Some sr => parse_spec rn pns pcl ccl sr | None => true end
   | Filter _ w p names parsed passed => forallb (passed_spec w p) passed
-  | Scen _ w ops obs fresh =>
+  | Scen _ w ops obs fresh _ =>
       all2 (fun g o => match g with (p, n, r) =>
                          keys_entitled w p o
                          && match verified p with None => match o with [] => true | _ => false end | Some _ => true end
                        end) (gens ops) obs
       && all2 (same_set entry_eqb) obs fresh
+  | KAuth _ grants ops obs =>
+      (* a positive answer only for a (namespace, SA) pair granted at some point of the history *)
+      all2 (fun c b => negb b || existsb (fun g => String.eqb (fst g) (snd c) && String.eqb (snd g) (fst c))
+                                         (ever_granted grants ops)) (kcalls ops) obs
   end.
 
 Definition mismatches := check_all case_id model_ok prop_ok.
